@@ -153,6 +153,47 @@ package constraint
 //@   loop 1 invariant @max maxLevel >= 0 - 1 && forall k int :: 0 <= k && k <= rangeindex && hasW(tree, wires[k]) && lvl(tree, wires[k]) != 0 - 1 ==> lvl(tree, wires[k]) <= maxLevel
 //@   loop 1 invariant @found (found ==> hasW(tree, outputWire) && lvl(tree, outputWire) == 0 - 1) && forall k int :: 0 <= k && k <= rangeindex && hasW(tree, wires[k]) && lvl(tree, wires[k]) == 0 - 1 ==> found
 
+// The hint instruction reads the wires of its input linear expressions (a length-prefixed walk over the calldata)
+// and produces the wires of its output range. walkMax(tree, cd, j) is the largest level among the wires of the
+// tree met by the walk before position j (-1 if none): uninterpreted, unfolded along the function's own walk by
+// the loop lemmas (a length word adds nothing, a wire adds its level), so the clause pins the comparison and the
+// "+ 1", not the walk itself.
+//@ spec func walkMax(tree InstructionTree, cd []uint32, j int) int reads Int#lvl, Bool#hasW
+//@ contract (*BlueprintGenericHint).UpdateInstructionTree
+//@   props C06
+//@   requires tree != nil
+//@   lemma @start walkMax(tree, inst.Calldata, 3) == 0 - 1
+//@   ensures @level result == old(walkMax(tree, inst.Calldata, j)) + 1 && result >= 0
+//@   ensures @outputs forall w int :: inst.Calldata[j] <= w && w < inst.Calldata[j+1] ==> lvl(tree, w) == result
+//@   loop 1 invariant @outer maxLevel == walkMax(tree, inst.Calldata, j) && maxLevel >= 0 - 1
+//@   loop 1 lemma @len-word walkMax(tree, inst.Calldata, j + 1) == walkMax(tree, inst.Calldata, j)
+//@   loop 2 invariant @inner maxLevel == walkMax(tree, inst.Calldata, j) && maxLevel >= 0 - 1
+//@   loop 2 lemma @wire walkMax(tree, inst.Calldata, j + 2) == ((hasW(tree, inst.Calldata[j+1]) && lvl(tree, inst.Calldata[j+1]) > walkMax(tree, inst.Calldata, j)) ? lvl(tree, inst.Calldata[j+1]) : walkMax(tree, inst.Calldata, j))
+//@   loop 3 invariant @inserted outputLevel == maxLevel + 1 && forall w int :: inst.Calldata[j] <= w && w < k ==> lvl(tree, w) == outputLevel
+
+// The lookup instruction depends on the table entries recorded so far (their maximum level is cached in the
+// blueprint, shifted by one so that the zero value means "none") and on the wires of its query inputs.
+// Precondition = the cache invariant: maxLevel - 1 is the walk maximum of the entries up to maxLevelOffset.
+//@ contract (*BlueprintLookupHint).UpdateInstructionTree
+//@   props C06
+//@   requires b != nil && tree != nil && b.maxLevelOffset >= 0 && b.maxLevel >= 0 && alloc(b.EntriesCalldata) != alloc(b) && alloc(inst.Calldata) != alloc(b) && allocated(b.EntriesCalldata)
+//@   requires @cache-invariant b.maxLevel - 1 == walkMax(tree, b.EntriesCalldata, b.maxLevelOffset)
+//@   lemma @start walkMax(tree, inst.Calldata, 3) == 0 - 1
+//   the level: one above the larger of the (updated) cached maximum of the entries and the walk maximum of the inputs
+//@   ensures @level result >= b.maxLevel && result >= old(walkMax(tree, inst.Calldata, j)) + 1 && (result == b.maxLevel || result == old(walkMax(tree, inst.Calldata, j)) + 1)
+//   (loop 3 entry: the cache invariant is re-established for the new offset before any level changes)
+//@   loop 3 invariant @cache b.maxLevel - 1 == walkMax(tree, b.EntriesCalldata, b.maxLevelOffset) && b.maxLevel >= 0
+//@   loop 3 invariant @inputs maxLevel >= b.maxLevel - 1 && maxLevel >= walkMax(tree, inst.Calldata, j) && (maxLevel == b.maxLevel - 1 || maxLevel == walkMax(tree, inst.Calldata, j))
+//@   loop 3 lemma @len-word walkMax(tree, inst.Calldata, j + 1) == walkMax(tree, inst.Calldata, j)
+//@   loop 4 invariant @inputs maxLevel >= b.maxLevel - 1 && maxLevel >= walkMax(tree, inst.Calldata, j) && (maxLevel == b.maxLevel - 1 || maxLevel == walkMax(tree, inst.Calldata, j))
+//@   loop 4 lemma @wire walkMax(tree, inst.Calldata, j + 2) == ((hasW(tree, inst.Calldata[j+1]) && lvl(tree, inst.Calldata[j+1]) > walkMax(tree, inst.Calldata, j)) ? lvl(tree, inst.Calldata[j+1]) : walkMax(tree, inst.Calldata, j))
+//@   loop 1 invariant @hdr b.EntriesCalldata == old(b.EntriesCalldata)
+//@   loop 2 invariant @hdr b.EntriesCalldata == old(b.EntriesCalldata)
+//@   loop 1 invariant @entries b.maxLevel - 1 == walkMax(tree, b.EntriesCalldata, j) && b.maxLevel >= 0
+//@   loop 1 lemma @len-word walkMax(tree, b.EntriesCalldata, j + 1) == walkMax(tree, b.EntriesCalldata, j)
+//@   loop 2 invariant @entries b.maxLevel - 1 == walkMax(tree, b.EntriesCalldata, j) && b.maxLevel >= 0
+//@   loop 2 lemma @wire walkMax(tree, b.EntriesCalldata, j + 2) == ((hasW(tree, b.EntriesCalldata[j+1]) && lvl(tree, b.EntriesCalldata[j+1]) > walkMax(tree, b.EntriesCalldata, j)) ? lvl(tree, b.EntriesCalldata[j+1]) : walkMax(tree, b.EntriesCalldata, j))
+
 // ---- C09: after decoding, the header check restores the field of the system from its serialized hex
 // modulus: q is that number and bitLen is its bit length (both are unexported and not part of the encoding).
 //@ contract (*System).CheckSerializationHeader
